@@ -182,16 +182,27 @@ def replay_failures(obl, out):
             needle, expected = "_eq (& ((this . f0)))", True
         if kind == "enum":
             needle = needle.replace("(this . f0)", "(* _this_f0)")
-        case = {"property": PID, "kind": "contains", "mode": "attr", "attr": "Eq", "item": item, "needle": needle, "expected": expected,
+        case = {"property": PID, "kind": "contains", "mode": "attr", "attr": "Eq, PartialEq, Hash, PartialOrd, Ord", "item": item, "needle": needle, "expected": expected,
                 "explain": "MIR path asserts %s for this configuration" % (calls,)}
+        if has and tv(fa.rejects("Eq")):
+            # the documentation refuses this configuration for Eq (a compared component would escape the assertion otherwise)
+            case = {"property": PID, "kind": "reject_trait", "trait": "Eq", "mode": "attr", "attr": case["attr"], "item": item, "expected_reject": True,
+                    "explain": "customised comparison elsewhere while Eq would fall back to the field's own impl: must be refused, MIR path asserts %s" % (calls,)}
         obs = replay_e3.observe(case)
         n += 1
         path = e3.write_replay(PID, "case%03d" % n, case)
-        if obs["rejected"]:
-            continue  # refused by the macro: C05's subject
+        if case["kind"] == "reject_trait":
+            if replay_e3.disagrees(case, obs):
+                out.violation("eq-not-refused|%s|%s" % (kind, " ".join(attrs)), path,
+                              "derive_ex(Eq) is accepted although the compared value is not the one asserted to be Eq: #[derive_ex(%s)] %s" % (case["attr"], item))
+            else:
+                out.broken.append("UNCONFIRMED counterexample for %s: %s" % (label, item))
+            continue
+        if "Eq" in obs["rejected_traits"]:
+            continue  # Eq itself is refused by the macro: C05's subject
         if replay_e3.disagrees(case, obs):
             out.violation("asserted-component|%s|%s" % (kind, " ".join(attrs)), path,
-                          "the hidden Eq assertion %s `%s` for: #[derive_ex(Eq)] %s" % ("lacks" if expected else "contains", needle, item))
+                          "the hidden Eq assertion %s `%s` for: #[derive_ex(%s)] %s" % ("lacks" if expected else "contains", needle, case["attr"], item))
         else:
             out.broken.append("UNCONFIRMED counterexample for %s: %s" % (label, item))
         if n >= 6:
